@@ -254,6 +254,15 @@ def check_predict(ctx, repo):
                     % ("retrains the model" if n_tr else "adds training data"), "train-when")
         elif f.ret_tag == "OBJ":
             seen_eval += 1
+            # the true objective stands in only when no prediction can be had: the model is not trained, the problem has no
+            # hook, or the hook was asked and declined.  A trained model whose hook is never asked (a further condition
+            # decides) turns every accepted prediction into an evaluation that is counted, stored and can retrain the model
+            hook_absent = any(k == "HOOK" and not val for _, _, val, k in f.guards)
+            if f.guard_true({"TRAINED"}) and not hook_absent and f.hook_calls == 0:
+                other = [text(a)[:60] for _, a, val, k in f.guards if k not in ("TRAINED", "HOOK") and not val][:1]
+                bad("R2", p, "the model is trained, yet the objective is evaluated without the predict hook having been asked%s: a prediction the hook would give is not used, "
+                    "the request is counted as an evaluation and its value enters the training set" % ((" (the path is taken because `%s` is false)" % other[0]) if other else ""),
+                    "prediction-guarded")
             if f.ret_modified:
                 bad("R3", p, "the objective value is modified before being returned", "unmodified")
             if f.obj_calls != 1:
